@@ -523,9 +523,22 @@ func (s *Stage) Recover() {
 			base := strings.TrimSuffix(path, compExt)
 			if _, err = os.Stat(base + waitExt); !os.IsNotExist(err) {
 				// .wait
-				s.logDebug("Found ready to finalize:", cmp.Name)
-				finalize = append(finalize, cmp)
-			} else if _, err = os.Stat(base + fullExt); !os.IsNotExist(err) {
+				if hash, herr := fileutil.FileMD5(base + waitExt); herr == nil && hash != cmp.Hash {
+					// A newer version of this file began to arrive while
+					// the validated one was waiting for its predecessor:
+					// the companion now describes the newer version, so
+					// the waiting body must not be logged and delivered
+					// under that version's hash.  It is superseded (as it
+					// is when this happens without a restart).
+					s.logInfo("Removing superseded waiting file:", cmp.Name)
+					os.Remove(base + waitExt)
+				} else {
+					s.logDebug("Found ready to finalize:", cmp.Name)
+					finalize = append(finalize, cmp)
+					return nil
+				}
+			}
+			if _, err = os.Stat(base + fullExt); !os.IsNotExist(err) {
 				// .full
 				s.logDebug("Found ready to validate:", cmp.Name)
 				validate = append(validate, cmp)
